@@ -175,8 +175,10 @@ def execute(case):
     import pysam
     from singlecellmultiomics.features import FeatureContainer
     log = EventLog(case.get('run_seed'))
-    FeatureContainer.findFeaturesAt.cache_clear()
-    FeatureContainer.findNearestFeature.cache_clear()
+    for fn in ('findFeaturesAt', 'findNearestFeature'):      # start every history with an empty process-wide memo (if there is one)
+        cc = getattr(getattr(FeatureContainer, fn, None), 'cache_clear', None)
+        if cc:
+            cc()
     cont = [FeatureContainer(), FeatureContainer()]
     model = [[], []]          # list of (chrom,start,end,name,strand)
     dirty = [False, False]
@@ -245,11 +247,12 @@ def execute(case):
             ensure_sorted(c)
             if broken[c]:
                 continue
-            before = FeatureContainer.findFeaturesAt.cache_info()
+            ci_ = getattr(FeatureContainer.findFeaturesAt, 'cache_info', None)
+            before = ci_() if ci_ else None
             for i in range(op[2]):
                 cont[c].findFeaturesAt('chr1', op[3] * 7919 + i, None)
-            after = FeatureContainer.findFeaturesAt.cache_info()
-            if before.currsize + (after.misses - before.misses) > 512:
+            after = ci_() if ci_ else None
+            if before is None or before.currsize + (after.misses - before.misses) > 512:
                 probe('lru_churn_evicted')
             log.add('churn', c, op[2])
         else:
